@@ -45,7 +45,7 @@ type Engine struct {
 	nameCache   map[*ssa.Function]map[string]nameRef
 	syntax      map[*ssa.Function]ast.Node
 	cg          *callgraph.Graph
-	reachEvent  map[*ssa.Function]bool
+	reachGhost  map[*ssa.Function]map[string]bool
 	immutableLeaves []immLeaf
 	allFuncs    []*ssa.Function
 	loadMs      int64
@@ -875,19 +875,28 @@ func (e *Engine) functionsWithSites(s *Site) []*ssa.Function {
 	return out
 }
 
-// mayReachEvent: can a call to fn (transitively, CHA) fire a declared ghost event?
-func (e *Engine) mayReachEvent(fn *ssa.Function) bool {
-	if len(e.contracts.Events) == 0 {
-		return false
-	}
-	if fn.Pkg == nil || !isRepoPkg(fn.Pkg.Pkg.Path()) {
-		return false
+// reachableGhosts: the ghost variables that events (statically) reachable from fn may change.
+// Interface and function-value callees are assumed not to fire ghost events unless an event is
+// declared for the call shape itself.
+func (e *Engine) reachableGhosts(fn *ssa.Function) map[string]bool {
+	if len(e.contracts.Events) == 0 || fn.Pkg == nil || !isRepoPkg(fn.Pkg.Pkg.Path()) {
+		return nil
 	}
 	if e.cg == nil {
 		e.cg = cha.CallGraph(e.prog)
-		e.reachEvent = map[*ssa.Function]bool{}
-		// seed: functions that directly contain an event site
-		direct := map[*ssa.Function]bool{}
+		e.reachGhost = map[*ssa.Function]map[string]bool{}
+		savedRoot := e.curRoot
+		e.curRoot = nil // scope restrictions (`in`) are ignored here: conservative
+		note := func(f *ssa.Function, kind, key string) {
+			for _, ev := range e.eventsFor(kind, key) {
+				for _, d := range ev.Do {
+					if e.reachGhost[f] == nil {
+						e.reachGhost[f] = map[string]bool{}
+					}
+					e.reachGhost[f][d.Name] = true
+				}
+			}
+		}
 		for _, f := range e.allFuncs {
 			for _, b := range f.Blocks {
 				for _, ins := range b.Instrs {
@@ -900,52 +909,66 @@ func (e *Engine) mayReachEvent(fn *ssa.Function) bool {
 									k = k[i+1:]
 								}
 							}
-							if len(e.eventsFor(parts[0], k)) > 0 {
-								direct[f] = true
-							}
+							note(f, parts[0], k)
 						}
 					}
 					switch x := ins.(type) {
 					case *ssa.Go:
-						if len(e.eventsFor("go", "")) > 0 {
-							direct[f] = true
-						}
+						note(f, "go", "")
 					case *ssa.UnOp:
-						if x.Op == token.ARROW && len(e.eventsFor("recv", "")) > 0 {
-							direct[f] = true
+						if x.Op == token.ARROW {
+							note(f, "recv", "")
+						}
+					case *ssa.Call:
+						if bi, ok := x.Call.Value.(*ssa.Builtin); ok && bi.Name() == "close" {
+							note(f, "close", "")
+						}
+					}
+				}
+			}
+			// ghost updates declared in the function's own contract (loop exit-do, modifies ghost)
+			if fc := e.contractFor(f); fc != nil {
+				for _, m := range fc.Modifies {
+					for _, it := range m.Items {
+						if it.Kind == "ghost" {
+							if e.reachGhost[f] == nil {
+								e.reachGhost[f] = map[string]bool{}
+							}
+							e.reachGhost[f][it.Name] = true
 						}
 					}
 				}
 			}
 		}
-		// backward closure over the call graph restricted to repo functions
+		e.curRoot = savedRoot
 		changed := true
-		for f := range direct {
-			e.reachEvent[f] = true
-		}
 		for changed {
 			changed = false
 			for f, node := range e.cg.Nodes {
-				if f == nil || e.reachEvent[f] || f.Pkg == nil || !isRepoPkg(f.Pkg.Pkg.Path()) {
+				if f == nil || f.Pkg == nil || !isRepoPkg(f.Pkg.Pkg.Path()) {
 					continue
 				}
 				for _, out := range node.Out {
-					// static edges only: interface and function-value callees are assumed not to
-					// fire ghost events unless an event is declared for the call shape itself
 					if out.Site == nil || out.Site.Common().StaticCallee() == nil {
 						continue
 					}
-					if e.reachEvent[out.Callee.Func] {
-						e.reachEvent[f] = true
-						changed = true
-						break
+					for g := range e.reachGhost[out.Callee.Func] {
+						if !e.reachGhost[f][g] {
+							if e.reachGhost[f] == nil {
+								e.reachGhost[f] = map[string]bool{}
+							}
+							e.reachGhost[f][g] = true
+							changed = true
+						}
 					}
 				}
 			}
 		}
 	}
-	return e.reachEvent[fn]
+	return e.reachGhost[fn]
 }
+
+func (e *Engine) mayReachEvent(fn *ssa.Function) bool { return len(e.reachableGhosts(fn)) > 0 }
 
 func (e *Engine) contractTouchesGhost(fc *FuncContract) bool {
 	for _, m := range fc.Modifies {
